@@ -7,6 +7,10 @@ import Reamber.Props.C03
 #print axioms Reamber.C03.den_dvd_denMax
 #print axioms Reamber.C03.padding_count
 #print axioms Reamber.C03.measure_at_index
-#print axioms Reamber.C03.round2_exact
+#print axioms Reamber.C03.round6_err
+#print axioms Reamber.C03.round6_exact
+#print axioms Reamber.C03.round6_sixteenth
+#print axioms Reamber.C03.round6_grid48
+#print axioms Reamber.C03.round6_shift_within_row
+#print axioms Reamber.C03.two_decimal_counterexample
 #print axioms Reamber.C03.selectable_roundtrip
-#print axioms Reamber.C03.bpms_round_counterexample
